@@ -24,6 +24,10 @@ CHECKS = {
          "Instants at both range ends (and catalogue dates) are combined with stratified offsets (thorough: every one-second offset in (-24h, +24h) at 5 instants) so that the wall clock lands in the one-day headroom on both sides; each value goes through ~300 calls whose results are compared with the reference wall-clock model, and all ordered pairs of N values check that equality/order/hash/conversion depend only on the instant. Sampling of an infinite product space, concentrated where the specification has its edges.",
          "Trusted: reference calendar/instant model. A leap-second representation inside the very last second of the range is counted but not judged (the property does not place it). Five known findings (stepping INTO the headroom is refused) are listed in known_findings.json.",
          "DESIGN.md §4 C04"),
+ "C05": ("reference-model runtime monitor: definition-based offset lookup and brute-force wall-time candidates (independent TZif reader/writer and POSIX rule evaluator) evaluated next to chrono's lookups through the guarded hook and through the public Local API in child processes with TZ set",
+         "Every TZif file of the system database without leap records (thorough; quick: 16 awkward + seed-chosen), thousands of synthetic TZif v1-v3 files from random zone models and thousands of random POSIX rules are queried densely around every transition (instants T+{-1,0,1}, wall seconds at both edges of every gap/fold ±2 s, midpoints), over 50 rule years and far years, plus sparse random instants; every instant is also round-tripped through its wall time. A sample of each zone's queries goes through chrono::Local itself. One-second resolution is exhaustive only in the neighbourhoods; zones are a sample of 'all zones'.",
+         "Trusted: R-tz oracle (harness/src/reftz.rs, self-tested each run). Rule-governed queries are judged only where the rule's transitions alternate and lie >1 day inside the calendar year (property restriction). Boundary seconds of gaps/folds are exempt except for panics/foreign offsets. Known finding: overlapping gaps/folds of transitions closer together than their offset changes (synthetic zones only).",
+         "DESIGN.md §4 C05"),
 }
 NOT_YET = {}
 
